@@ -5,16 +5,16 @@ package vf
 
 import (
 	"bytes"
-	"crypto/tls"
-	"net"
 	"crypto/ecdh"
 	"crypto/ed25519"
 	"crypto/rand"
 	"crypto/sha256"
+	"crypto/tls"
 	"crypto/x509"
 	"encoding/hex"
 	"encoding/json"
 	"fmt"
+	"net"
 	"os"
 	"time"
 
@@ -84,7 +84,7 @@ func Int(label string, lo, hi int) int {
 	}
 	return int(v)
 }
-func Bool(label string) bool { return m.Bools[key(label)] }
+func Bool(label string) bool                 { return m.Bools[key(label)] }
 func String(label string, maxLen int) string { return m.Strings[key(label)] }
 func Bytes(label string, maxLen int) []byte {
 	s, ok := m.Strings[key(label)]
@@ -93,6 +93,7 @@ func Bytes(label string, maxLen int) []byte {
 	}
 	return []byte(s)
 }
+
 // Garbage is model-chosen bytes that start with 0xFF: no protobuf, base64 or base58 decoder accepts them.
 func Garbage(label string, maxLen int) []byte {
 	s, ok := m.Strings[key(label)]
@@ -166,6 +167,7 @@ func Assert(label string, b bool) {
 		Failed = append(Failed, label)
 	}
 }
+
 // CutLoop is an engine directive (inductive loop cut); natively a no-op.
 func CutLoop(fn, header string, checker any, ranges ...any) {}
 
@@ -175,10 +177,10 @@ func Quiesce() { time.Sleep(50 * time.Millisecond) }
 // FreezeHeap marks everything allocated so far as pre-existing (engine only; no-op natively).
 func FreezeHeap() {}
 
-func Reach(label string)      { Reached = append(Reached, label) }
-func Or(a, b bool) bool       { return a || b }
-func And(a, b bool) bool      { return a && b }
-func Implies(a, b bool) bool  { return !a || b }
+func Reach(label string)     { Reached = append(Reached, label) }
+func Or(a, b bool) bool      { return a || b }
+func And(a, b bool) bool     { return a && b }
+func Implies(a, b bool) bool { return !a || b }
 
 // SecretFree reports whether none of the secrets occurs in clear in the marshalled message.
 func SecretFree(msg proto.Message, secrets ...[]byte) bool {
@@ -349,12 +351,12 @@ func Dur(label string, lo, hi int64) time.Duration { return time.Duration(Int(la
 // readings are not observable; the current time is the closest stand-in (replay models
 // are chosen with a margin, see DESIGN 3.3).
 func ClockReading(i int) time.Time { return time.Now() }
-func TimeLE(a, b time.Time) bool  { return !a.After(b) }
-func EqBytes(a, b []byte) bool    { return string(a) == string(b) }
-func TimeLT(a, b time.Time) bool  { return a.Before(b) }
-func TimeEq(a, b time.Time) bool  { return a.Equal(b) }
-func Iff(a, b bool) bool          { return a == b }
-func Not(a bool) bool             { return !a }
+func TimeLE(a, b time.Time) bool   { return !a.After(b) }
+func EqBytes(a, b []byte) bool     { return string(a) == string(b) }
+func TimeLT(a, b time.Time) bool   { return a.Before(b) }
+func TimeEq(a, b time.Time) bool   { return a.Equal(b) }
+func Iff(a, b bool) bool           { return a == b }
+func Not(a bool) bool              { return !a }
 
 // ---- key universe: deterministic real keys ----
 func edKey(k int) ed25519.PrivateKey {
